@@ -10,7 +10,9 @@ package interceptor
 
 import (
 	"bytes"
+	"context"
 	"fmt"
+	"io"
 	"sort"
 	"strings"
 	"sync/atomic"
@@ -21,10 +23,27 @@ import (
 	"go.temporal.io/server/api/adminservice/v1"
 	persistencespb "go.temporal.io/server/api/persistence/v1"
 	"go.temporal.io/server/common/log"
+	"google.golang.org/grpc"
+	"google.golang.org/grpc/metadata"
 	"google.golang.org/protobuf/proto"
 
+	"github.com/temporalio/s2s-proxy/common"
 	vrt "github.com/temporalio/s2s-proxy/internal/verifrt"
 )
+
+// vfFakeServerStream records what is handed to the stream.
+type vfFakeServerStream struct {
+	grpc.ServerStream
+	ctx  context.Context
+	sent []proto.Message
+}
+
+func (f *vfFakeServerStream) Context() context.Context { return f.ctx }
+func (f *vfFakeServerStream) SendMsg(m any) error {
+	f.sent = append(f.sent, proto.Clone(m.(proto.Message)))
+	return nil
+}
+func (f *vfFakeServerStream) RecvMsg(m any) error { return io.EOF }
 
 func vfDetMarshal(m proto.Message) []byte {
 	b, err := proto.MarshalOptions{Deterministic: true}.Marshal(m)
@@ -337,8 +356,55 @@ func TestVerifC13(t *testing.T) {
 			}
 		}
 	})
+	// (e) streams: what the stream interceptor hands on. On an ordinary replication stream the messages the handler
+	// sends are translated in the response direction, exactly once; a stream that a peer proxy instance forwards
+	// (intra-proxy marker) is left alone - it has been, or will be, translated on the hop that faces the cluster - for
+	// every one-to-one mapping, chains (a->b, b->c) included, where translating twice shows.
+	var streamCases int64
+	streamRoot := vfRoot{}
+	for _, r := range roots {
+		if r.Response && string(r.MD.Name()) == "StreamWorkflowReplicationMessagesResponse" {
+			streamRoot = r
+		}
+	}
+	if streamRoot.MD != nil {
+		info := &grpc.StreamServerInfo{FullMethod: streamRoot.Full, IsClientStream: true, IsServerStream: true}
+		for _, m := range mappings {
+			inv := vfInverse(m)
+			ti := NewTranslationInterceptor(log.NewNoopLogger(), []Translator{NewNamespaceNameTranslator(log.NewNoopLogger(), m, inv)})
+			for _, x := range names {
+				for _, intra := range []bool{false, true} {
+					msg := vrt.PopulateNames(streamRoot.MD, x)
+					want := proto.Clone(msg)
+					if !intra {
+						_, _ = vrt.RefTranslateNames(want, inv)
+					}
+					ctx := context.Background()
+					if intra {
+						ctx = metadata.NewIncomingContext(ctx, metadata.Pairs(common.IntraProxyHeaderKey, common.IntraProxyHeaderValue, common.IntraProxyOriginProxyIDHeader, "peer-proxy", common.IntraProxyHopCountHeader, "1"))
+					}
+					fs := &vfFakeServerStream{ctx: ctx}
+					_ = ti.InterceptStream(nil, fs, info, func(_ any, ss grpc.ServerStream) error { return ss.SendMsg(msg) })
+					streamCases++
+					replay := map[string]any{"mapping": m, "name": x, "intra_proxy": intra}
+					if len(fs.sent) != 1 {
+						res.Violate("stream/message-not-handed-on", fmt.Sprintf("mapping {%s}, name %q, intra-proxy=%v: %d messages reached the stream", vfMapString(m), x, intra, len(fs.sent)), replay)
+						continue
+					}
+					if eq, _ := vrt.CanonEqual(fs.sent[0], want); !eq {
+						sig := "stream/not-translated-exactly-once"
+						if intra {
+							sig = "stream/intra-proxy-stream-translated"
+						}
+						res.Violate(sig, fmt.Sprintf("mapping {%s}, every namespace field = %q, intra-proxy marker %v: the message handed to the stream differs from the expected one (ordinary stream: the response mapping applied once; forwarded stream: untouched)\n got:  %.300v\n want: %.300v", vfMapString(m), x, intra, fs.sent[0], want), replay)
+					}
+				}
+			}
+		}
+	}
+	res.Set("stream_cases", streamCases)
 	res.Set("sa_mapping_cases", saCases)
-	res.Set("evaluations", evals+rtCases+saCases)
+	res.Set("evaluations", evals+rtCases+saCases+streamCases)
 	res.Set("distinct_nontrivial", nontrivial+rtCases/2+saCases)
 	res.Set("frame_cases", evals)
 	res.Set("frame_cases_checked_byte_identical", unchangedChecked)
